@@ -18,6 +18,8 @@ DEMOOR = "mdpax.problems.perishable_inventory.de_moor_single_product.DeMoorSingl
 def gen_chain(rng, i, tier):
     kind = ["vi", "rvi", "periodic", "semi", "pi", "vi", "semi"][i % 7]
     route = "restore" if rng.random() < 0.7 else "load"
+    if kind == "pi" and (i // 7) % 2 == 0:
+        route = "restore"
     if route == "restore":
         if rng.random() < 0.6 and kind != "periodic":      # (Forest's period-span vanishes after a few sweeps: too easy for the periodic stopping rule)
             prob = {"op": "shipped", "id": f"p{i}", "target": FOREST, "kwargs": {"S": rng.choice([3, 5, 7]), "p": 0.125, "r1": 6.0, "r2": 3.0}}
@@ -55,6 +57,16 @@ def gen_chain(rng, i, tier):
         new["eps"] = rng.choice(["1/1024", "1/1048576"])
         ks[-1] = 80
     ck = {"f": rng.choice([1, 2, 3]), "m": rng.choice([1, 2]), "async": rng.randint(0, 1)}
+    if kind == "pi" and (i // 7) % 2 == 0:
+        # interruption exactly at an in-loop (periodic) save, before convergence: the final save of that call then targets a step that
+        # already exists, so the restored state is what the in-loop save captured
+        ck["f"] = rng.choice([1, 2])
+        ks[0] = ck["f"]
+        new.update(budget=5, reset=0, gamma=rng.choice(["9/10", "99/100"]))
+        if route == "restore":
+            # Forest with 8 states needs 7 policy-iteration steps at these discount factors, so the interruption falls before convergence
+            prob = {"op": "shipped", "id": f"p{i}", "target": FOREST, "kwargs": {"S": 8, "p": 0.125, "r1": 6.0, "r2": 3.0}}
+            new["n_hint"] = 8
     return {"i": i, "kind": kind, "route": route, "prob": prob, "new": new, "ks": ks, "ck": ck, "cfg": cfg, "conv_mode": conv_mode, "rseed": rng.randrange(10 ** 6)}
 
 
